@@ -261,6 +261,52 @@ def impl_obs(case):
     return obs
 
 
+def malformed_obs(case):
+    """`extra` holding values JSON cannot carry (NaN, tuples, numpy scalars): outside the domain of the
+    round-trip claim; what is still required is "raises, or the geff-defined fields come back unchanged"."""
+    import warnings
+
+    warnings.simplefilter("ignore")
+    import numpy as np
+    import zarr
+    from geff_spec import GeffMetadata
+    from zarr.storage import MemoryStore
+
+    bad = {"nan": {"v": mc.NAN, "l": [1.0, mc.NAN]}, "tuple": {"t": (1, 2, ("a", None))}, "numpy": {"n": np.int64(5), "f": np.float32(1.5)},
+           "nparray": {"a": np.arange(3)}, "bytes": {"b": b"xy"}, "set": {"s": {1, 2}}}[case["malformed"]]
+    try:
+        obj = GeffMetadata(**{**case["doc"], "extra": bad})
+    except Exception as e:  # noqa: BLE001
+        return {"construct": type(e).__name__, "problems": []}
+
+    def defined(o):
+        d = o.model_dump()
+        d.pop("extra", None)
+        return mc.canon(mc.enc(d))
+
+    want = defined(obj)
+    probs, outcomes = [], {}
+    try:
+        back = GeffMetadata.model_validate_json(obj.model_dump_json())
+        outcomes["json"] = "ok"
+        if defined(back) != want:
+            probs.append({"route": "json text", "back": defined(back)})
+    except Exception as e:  # noqa: BLE001
+        outcomes["json"] = type(e).__name__
+    for fmt in (2, 3):
+        try:
+            store = MemoryStore()
+            zarr.open_group(store, mode="w", zarr_format=fmt)
+            obj.write(store)
+            back = GeffMetadata.read(store)
+            outcomes[f"zarr{fmt}"] = "ok"
+            if defined(back) != want:
+                probs.append({"route": f"zarr v{fmt}", "back": defined(back)})
+        except Exception as e:  # noqa: BLE001
+            outcomes[f"zarr{fmt}"] = type(e).__name__
+    return {"construct": "ok", "outcomes": outcomes, "problems": probs}
+
+
 # ----------------------------------------------------------------- generators
 def exhaustive_presence():
     """all subsets of the 8 optional top-level keys x 3 axis shapes on a small object"""
@@ -431,6 +477,20 @@ def run(ck: common.Check):
                     nmut_dis += 1
                     ck.corr_broken("C08:evaluator-vs-jsonschema(mutation)", {"desc": m["desc"], "inst": m["inst"]},
                                    m["published"], mo["verdict"])
+    # malformed stream: `extra` with values JSON cannot carry
+    mal = [{"doc": mc.gen_doc(ck.rng), "malformed": k} for k in ("nan", "tuple", "numpy", "nparray", "bytes", "set")
+           for _ in range(6 if ck.quick else 40)]
+    mhist: dict = {}
+    for mcase, mo_ in zip(mal, [malformed_obs(m) for m in mal]):
+        t = f"malformed-extra:{mcase['malformed']}:" + (mo_["construct"] if mo_["construct"] != "ok" else
+                                                         ",".join(f"{k}={v}" for k, v in sorted(mo_["outcomes"].items())))
+        mhist[t] = mhist.get(t, 0) + 1
+        ck.case(mcase, "malformed-extra", nontrivial=True)
+        for pr in mo_["problems"][:1]:
+            ck.fail("C08:malformed-extra-corrupts-defined-fields",
+                    f"extra holding {mcase['malformed']}: the geff-defined fields silently differ after {pr['route']}", mcase, pr,
+                    "an exception, or unchanged geff-defined fields")
+    ck.extra["malformed_extra_outcomes"] = mhist
     hist = {}
     for im in impl:
         for m in im.get("mutations", []):
@@ -464,6 +524,11 @@ def run(ck: common.Check):
 def replay(rp):
     mc.init_env()
     c = rp["case"]
+    if "malformed" in c:
+        mo_ = malformed_obs(c)
+        print(json.dumps({"case": c, "impl": mo_}, default=str)[:6000])
+        print("REPLAY: property FAILS on this input" if mo_["problems"] else "REPLAY: property holds on this input")
+        return 1 if mo_["problems"] else 0
     im = impl_obs(c)
     print(json.dumps({"case": c, "impl": {k: v for k, v in im.items() if k != "mutations"}}, default=str)[:6000])
 
